@@ -46,7 +46,7 @@ def tlaps_proof(chk: Check) -> None:
     w = workdir("tlaps")
     p = subprocess.run(["tlapm", "--cleanfp", "--cache-dir", str(w / "cache"), "-I", "/opt/veriftools/tlapm/lib/tlaps",
                         "--threads", "4", str(SPECS / "ProvideRefs_proofs.tla")],
-                       capture_output=True, text=True, timeout=1200, cwd=str(SPECS))
+                       capture_output=True, text=True, timeout=1200, cwd=str(SPECS), env=dict(os.environ, TMPDIR=str(w)))
     out = p.stdout + p.stderr
     m = re.search(r"All (\d+) obligations? proved", out)
     if not m or p.returncode != 0:
@@ -68,7 +68,7 @@ def start_apalache():
         p = subprocess.run(["apalache-mc", "check", f"--init={init}", f"--inv={inv}", f"--length={length}",
                             f"--out-dir={d}/out", f"--run-dir={d}/run", str(SPECS / "Apa_ProvideRefs.tla")],
                            capture_output=True, text=True, timeout=1200, cwd=str(d),
-                           env=dict(os.environ, JVM_ARGS="-Xmx3g"))
+                           env=dict(os.environ, JVM_ARGS=f"-Xmx3g -Djava.io.tmpdir={d}", TMPDIR=str(d)))
         return p.stdout + p.stderr
     ex = ThreadPoolExecutor(4)
     jobs = [("Init", "IndInv", 0), ("IndInit", "IndInv", 1), ("IndInit", "Props", 0), ("WeakInit", "WeakInv", 1)]
